@@ -143,7 +143,9 @@ def indexSet (dst idx v : Value) : EM Unit := do
         match ← liftM (getObj r) with
         | .arr st off len =>
           if n < 0 || n ≥ len then eRt "index out of bounds"
-          else match ← liftM (getObj st) with
+          else do
+           liftM (noteWrite r)
+           match ← liftM (getObj st) with
             | .store vs h => liftM (setObj st (.store (vs.setIfInBounds (off + n.toNat) v) h))
             | _ => eUnsup "bad store"
         | _ => eUnsup "bad array"
@@ -308,7 +310,9 @@ def callBuiltin (name : String) (args : List Value) : EM Value := do
           | _ => eUnsup "bad store"
         | _ => eUnsup "bad array"
         let es ← liftM (arrElems r)
-        pure (.arr (← liftM (newArray (es ++ x :: xs))))
+        let res ← liftM (newArray (es ++ x :: xs))
+        liftM (noteAppend r res)
+        pure (.arr res)
     | .imarr r => do
         let es ← liftM (arrElems r)
         pure (.arr (← liftM (newArray (es ++ x :: xs))))
@@ -351,6 +355,7 @@ def callBuiltin (name : String) (args : List Value) : EM Value := do
           | .store _ h => if h > 1 then liftM (throw (Err.excluded "splice of an array whose storage is shared (hidden capacity)")) else pure ()
           | _ => eUnsup "bad store"
         | _ => eUnsup "bad array"
+        liftM (noteWrite r)
         let st' ← liftM (alloc (.store newEs.toArray 1))
         liftM (setObj r (.arr st' 0 newEs.length))
         pure (.arr (← liftM (newArray deleted)))
@@ -692,6 +697,10 @@ mutual
         let vv ← match live with
           | some r => do
               let es ← liftM (arrElems r)
+              -- the iterator holds the slice it started with: if the array was restructured meanwhile
+              -- (splice), what it sees depends on hidden capacity
+              if es.length != rest.length + 1 + i then
+                liftM (throw (Err.excluded "array restructured during for-in over it (hidden capacity)"))
               pure (es.getD i vv)
           | none => pure vv
         let env1 ← if k != "_" then declare { ctx with path := 4 :: ctx.path } k kv 1 else pure ctx.env
